@@ -11,9 +11,14 @@ Decided:
   WMC-C18b     open_read_only_snapshot cannot reach recover_wal / apply_records / record_checkpoint; its TOC comes from
                load_tail_snapshot and its WAL handle from EmbeddedWal::open_read_only.
   MPT-C18c     every EmbeddedWal method that writes is dominated by assert_writable's success (floor 4).
+  EFFECT-C18d  dropping a read-only handle writes nothing: <Memvid as Drop>::drop reaches commit only on a condition over
+               handle state (the fields it reads, through its getters), and no read-only constructor or read API
+               (open_read_only*, search, timeline, frame reads, stats, verify) can reach a store that makes that
+               condition true. commit() upgrades a read-only handle silently (ensure_writable), so a flag that a
+               read path can set and Drop tests turns a read-only session into a full commit at close.
 Not decided: byte equality of the file before/after (runtime)."""
 from . import lib, effects
-from .facts import op_place
+from .facts import op_place, rv_places
 
 GUARDS = ('Memvid::ensure_writable', 'Memvid::ensure_mutation_allowed', 'EmbeddedWal::assert_writable')
 READONLY_CTORS = ('Memvid::open_read_only', 'Memvid::open_read_only_with_options', 'Memvid::verify', 'Memvid::open_read_only_snapshot')
@@ -121,7 +126,68 @@ class UnguardedWrites:
         self.rounds = rounds
 
 
+READ_APIS = ('Memvid::search', 'Memvid::timeline', 'Memvid::frame_canonical_payload', 'Memvid::stats', 'Memvid::search_vec', 'Memvid::blob_reader', 'Memvid::frame_by_id',
+             'Memvid::frame_text_by_id', 'Memvid::frame_by_uri', 'Memvid::frame_embedding', 'Memvid::frame_preview_by_id', 'Memvid::frame_count')
+
+
+def _cond_fields(F, fn, local, at, depth=2):
+    sl = lib.slice_back(fn, [{'c': {'l': local, 'p': []}}], through_calls=True, at=at)
+    out = {f for o, f in sl.fields if o == 'Memvid'}
+    for c in sl.calls:
+        lc = c.local_callee
+        if lc and lc in F.fns and depth > 0:
+            g = F.fns[lc]
+            for b in [g] + F.closures_of(g):
+                for bb, i, st in b.stmts():
+                    for p in rv_places(st['rv']):
+                        out |= {f for o, f in p.field_owners() if o == 'Memvid'}
+    return out
+
+
+def _drop_commit(ctx, F):
+    ctx.rule('EFFECT-C18d', 'Drop commits only on handle state that no read-only constructor / read API can set')
+    dr = ctx.need('EFFECT-C18d', '<Memvid as Drop>::drop')
+    if dr is None:
+        return
+    ctx.touch(dr, len(dr.blocks))
+    cm = dr.calls_to(('Memvid::commit', 'Memvid::commit_with_options'))
+    if not cm:
+        ctx.ok('EFFECT-C18d', dr, 'Drop does not commit')
+        return
+    fields = set()
+    exits_ = set(range(len(dr.blocks)))
+    for bs in lib.bool_switches(dr):
+        if cm[0].bb in dr.reachable(bs['bb']) and any(cm[0].bb not in dr.reachable(e) for e in (bs['t_true'], bs['t_false'])):
+            fields |= _cond_fields(F, dr, bs['local'], (bs['bb'], None))
+    ctx.evaluations += len(dr.blocks)
+    if not fields:
+        ctx.bad('EFFECT-C18d', dr, 'Drop commits unconditionally: closing a read-only handle rewrites the file', line=cm[0].line, detail='drop-commits-unconditionally')
+        return
+    roots = [F.fn(k) for k in READONLY_CTORS + READ_APIS]
+    roots = [r for r in roots if r is not None]
+    ctx.floor('EFFECT-C18d', len(roots), 10, 'read-only constructors and read APIs')
+    reach = lib.reachable_fns(F, roots)
+    ctx.evaluations += len(reach)
+    setters = []
+    for f in reach.values():
+        for fld in fields:
+            for st in lib.field_stores(f, 'Memvid', fld):
+                if st['lhs'].field_owners()[-1] != ('Memvid', fld):
+                    continue
+                k = st['rv']['a'].get('k') if st['rv']['k'] == 'use' else None
+                if k is not None and k.get('v') in (False, 0):
+                    continue      # clearing the flag
+                setters.append((f, fld, st))
+    if setters:
+        f, fld, st = setters[0]
+        ctx.bad('EFFECT-C18d', dr, 'Drop commits when Memvid.%s is set, and %s (reachable from a read-only constructor / read API) sets it: closing a read-only handle can run a full commit '
+                '(ensure_writable upgrades the handle silently)' % (fld, f.key), line=cm[0].line, sink='Memvid.' + fld, detail='drop-commit-flag-set-by-reader:%s:%s' % (fld, f.key))
+    else:
+        ctx.ok('EFFECT-C18d', dr, 'Drop commits only on %s, which no read-only constructor / read API sets' % ', '.join('Memvid.' + x for x in sorted(fields)), line=cm[0].line)
+
+
 def run(ctx):
+    _drop_commit(ctx, ctx.facts())
     ctx.rule('EFFECT-C18a', 'no memory-file write reachable from a public self-method or read-only constructor without first passing a writability guard')
     ctx.rule('WMC-C18b', 'open_read_only_snapshot never reaches WAL replay; TOC from load_tail_snapshot; WAL opened read-only')
     ctx.rule('MPT-C18c', 'every writing EmbeddedWal method passes assert_writable first')
